@@ -108,6 +108,12 @@ CLAIMED["C17"] = dict(
    technique="relational symbolic execution (plain vs instrumented VM) + SMT",
    ref="DESIGN.md §5 C17")
 
+CLAIMED["C14"] = dict(
+   text="Bounded model checking of the calculation-process text as a symbolic string: 24 arithmetic expressions over dice terms of every family (dice = symbolic Roll-contract values), integer literals and a multi-byte identifier bound to a symbolic integer, with spacing / tab / line-break variants, run through the real parser, VM and makeDetailStr; the text is a rope whose numbers are solver terms; the oracle deletes the [..] annotations, evaluates the remaining arithmetic over those terms and requires equality with the result, and requires every XdY annotation's value to equal the sum of the kept dice it lists (SMT verification conditions over all dice outcomes). GetDetailText twice gives the same text and leaves result, variables and generator log unchanged.",
+   note="Expressions are enumerated (24); annotations of CoC / Fate / WoD / DC terms are only required to sit next to the right value, their inner text makes no claim. Abbreviated annotations ([..] longer than 400 bytes) cannot occur at these sizes. Host rewrite hooks are identity (C17).",
+   technique="symbolic execution with symbolic strings (ropes) + SMT over dice symbols",
+   ref="DESIGN.md §5 C14")
+
 NA = {
 }
 
